@@ -238,8 +238,9 @@ Definition guard_F4 (ne : list (string * string)) : bool :=
   existsb (fun a => flat_after_index (split_dot (fst a))) ne.
 
 
-(** C20-F4 narrowed to where the defect shows (used by the evaluator; the
-    theorems keep the syntactic [guard_F4]): a variable continues with two or more
+(** C20-F4 narrowed to where the defect shows (used by the evaluator and by the
+    `_F4n` theorems, C20/DottedProofs.v; the first block of theorems keeps the
+    syntactic [guard_F4]): a variable continues with two or more
     name segments below a list index AND (neither defaults nor file hold a map at
     that list element, so the dotted key is never resolved — or another variable
     addresses the same element with the same first name segment, so a dotted key
